@@ -6,6 +6,13 @@ kind "trees": routing_tree_to_tables(routes, net_keys)
     net_keys [[net, [key, mask]], ...]
   -> ["ok", [[[x, y], [[route...], key, mask, [source...]], ...], ...]]   (dict order; None is -1)
      ["multisource", key, mask, [x, y]] | ["other", exception class]
+     a case may name another entry point of the conversion: entry = "brt-false" / "brt-true" calls the
+     deprecated rig.place_and_route.utils.build_routing_tables(routes, net_keys, omit_default_routes=...)
+kind "history": a program of nested `with mc(x=.., y=.., app_id=..)` blocks, try blocks, loads and read-backs
+  on one controller; chips and application ids come from the contexts unless given explicitly
+    program = [stmt, ...]; stmt = ["with", {name: value}, program] | ["try", program]
+                                | ["load", {explicit}, entries, id] | ["read", {explicit}, id]
+  -> dict(ops=[dict(id, outcome, trace, digest (all chips), readback (reads))])  for the statements executed
 kind "load": MachineController.load_routing_table_entries / load_routing_tables on the simulated machine
   of harness/sim_router_c10.py (the controller's connection object is replaced from here), then
   get_routing_table_entries of every chip.
@@ -77,7 +84,12 @@ def run_trees(c):
     routes = OrderedDict((n, build(t)) for n, t in c["routes"])
     net_keys = OrderedDict((n, tuple(km)) for n, km in c["net_keys"])
     try:
-        tables = routing_tree_to_tables(routes, net_keys)
+        entry = c.get("entry", "r2t")
+        if entry == "r2t":
+            tables = routing_tree_to_tables(routes, net_keys)
+        else:
+            from rig.place_and_route.utils import build_routing_tables
+            tables = build_routing_tables(routes, net_keys, omit_default_routes=(entry == "brt-true"))
     except MultisourceRouteError as e:
         return ["multisource", e.key, e.mask, [e.x, e.y]]
     except Exception as e:
@@ -133,9 +145,68 @@ def run_load(c):
     return dict(outcome=outcome, trace=trace, digest=digest, readback=readback)
 
 
+def make_controller(chips):
+    mc = MachineController("127.0.0.1")
+    for conn in mc.connections.values():
+        conn.close()
+    fake = sim.FakeConnection(chips)
+    mc.connections = {None: fake}
+    mc._scp_data_length = 256
+    return mc, fake
+
+
+def run_history(c):
+    chips = OrderedDict(((x, y), sim.SimChip(spec)) for x, y, spec in c["chips"])
+    mc, fake = make_controller(chips)
+    ops = []
+
+    def record(opid, outcome, readback=None):
+        ops.append(dict(id=opid, outcome=outcome, trace=fake.log,
+                        digest=[[x, y, ch.digest()] for (x, y), ch in chips.items()], readback=readback))
+
+    def run(stmts):
+        for s in stmts:
+            if s[0] == "with":
+                with mc(**s[1]):
+                    run(s[2])
+            elif s[0] == "try":
+                try:
+                    run(s[1])
+                except Exception:
+                    pass
+            elif s[0] == "load":
+                fake.log = []
+                try:
+                    mc.load_routing_table_entries([entry_obj(e) for e in s[2]], **s[1])
+                except SpiNNakerRouterError as e:
+                    record(s[3], ["routererror", e.count, e.chip[0], e.chip[1]])
+                    raise
+                except Exception as e:
+                    record(s[3], ["other", type(e).__name__])
+                    raise
+                record(s[3], ["ok"])
+            else:
+                fake.log = []
+                try:
+                    got = mc.get_routing_table_entries(**s[1])
+                except Exception as e:
+                    record(s[2], ["other", type(e).__name__])
+                    raise
+                record(s[2], ["ok"], [len(got), [[i, canon_set(g[0].route), g[0].key, g[0].mask,
+                                                  canon_set(g[0].sources), g[1], g[2]]
+                                                 for i, g in enumerate(got) if g is not None]])
+    try:
+        run(c["program"])
+    except Exception:
+        pass
+    return dict(ops=ops)
+
+
 def run_case(c):
     if c["kind"] == "trees":
         return run_trees(c)
+    if c["kind"] == "history":
+        return run_history(c)
     return run_load(c)
 
 
